@@ -339,7 +339,10 @@ func cmdCheck(args []string) int {
 		}
 		sem := make(chan struct{}, par)
 		var wg sync.WaitGroup
-		self, _ := os.Executable()
+		// run the workers from a private copy of this binary: the build cache may be rotated by other
+		// invocations while a long exploration is still spawning workers
+		self, cleanup := privateCopy()
+		defer cleanup()
 		for _, j := range jobs {
 			wg.Add(1)
 			sem <- struct{}{}
@@ -493,6 +496,33 @@ func cmdCheck(args []string) int {
 		return 1
 	}
 	return 0
+}
+
+func privateCopy() (string, func()) {
+	self, err := os.Executable()
+	if err != nil {
+		return self, func() {}
+	}
+	dir := filepath.Join(verifDir(), ".cache", "run")
+	if os.MkdirAll(dir, 0o755) != nil {
+		return self, func() {}
+	}
+	// drop copies left behind by killed runs
+	if ents, err := os.ReadDir(dir); err == nil {
+		for _, e := range ents {
+			if info, err := e.Info(); err == nil && time.Since(info.ModTime()) > 12*time.Hour {
+				os.Remove(filepath.Join(dir, e.Name()))
+			}
+		}
+	}
+	dst := filepath.Join(dir, fmt.Sprintf("vcheck-%d", os.Getpid()))
+	if os.Link(self, dst) != nil {
+		b, err := os.ReadFile(self)
+		if err != nil || os.WriteFile(dst, b, 0o755) != nil {
+			return self, func() {}
+		}
+	}
+	return dst, func() { os.Remove(dst) }
 }
 
 type recordedViolation struct {
